@@ -20,7 +20,7 @@ def _SchemaFromExpress(text):
 
 HERE = os.path.dirname(os.path.abspath(__file__))
 VERIF = os.path.dirname(HERE)
-EXTRACTORS = ["stepfile", "instmgr", "attrnull", "enums", "threading"]
+EXTRACTORS = ["stepfile", "instmgr", "attrnull", "enums", "threading", "headerids"]
 
 
 def schema_lines(schema):
